@@ -172,8 +172,8 @@ func (s *system) snap(kind string) *rig.TableSnap {
 var hg *rig.HangGuard
 
 type outcome struct {
-	viol                                  []vf.Violation
-	compared, prefixes                    int
+	viol                                   []vf.Violation
+	compared, prefixes                     int
 	changedSomething, hadHidden, hadStatic bool
 }
 
@@ -183,6 +183,15 @@ func feat(c c12case, extra ...any) map[string]string {
 		mut = c.Mutation[0]
 	}
 	f := vf.F("side", c.Kind, "session", c.Sess.Kind, "addpath", c.Sess.AddPath > 0, "change", mut)
+	if c.Kind == "export" {
+		// a route of the set may not be advertised on this session at all (NO_ADVERTISE, NO_EXPORT to eBGP, the peer's own route)
+		blocked := false
+		for _, r := range c.Routes {
+			ex := rig.Excluded(rig.DefaultLocal, c.Sess, r.Attr)
+			blocked = blocked || strings.HasPrefix(ex, "R1") || strings.HasPrefix(ex, "R2") || strings.HasPrefix(ex, "R3")
+		}
+		f["blocked_route_present"] = fmt.Sprint(blocked)
+	}
 	for i := 0; i+1 < len(extra); i += 2 {
 		f[fmt.Sprint(extra[i])] = fmt.Sprint(extra[i+1])
 	}
@@ -219,7 +228,7 @@ func runCase(c c12case) (o outcome) {
 		b = build(c, final).snap(c.Kind)
 	})
 	if hung {
-		o.viol = append(o.viol, vf.Violation{Clause: "hang", Features: vf.F("side", c.Kind, "session", c.Sess.Kind, "addpath", c.Sess.AddPath > 0), Detail: "the replacement never returned; blocked in:\n" + stk, Case: c})
+		o.viol = append(o.viol, vf.Violation{Clause: "hang", Features: vf.F("side", c.Kind, "addpath", c.Sess.AddPath > 0), Detail: "the replacement never returned; blocked in:\n" + stk, Case: c})
 		return
 	}
 	if g != "" {
